@@ -15,6 +15,7 @@ type zzWorld struct {
 	up    map[string]bool
 	dials map[string]int
 	streams bool // the stub servers refuse stream opens for methods other than S.Watch
+	closeErr error // every connection's Close reports this error
 }
 
 func (z *zzWorld) live(addr string) int {
@@ -58,6 +59,7 @@ func zzNewTransport(z *zzWorld, maxConns, maxIdle int) *Transport {
 		m.addr = address
 		m.auto = true
 		m.autoStreams = z.streams
+		m.closeErr = z.closeErr
 		m.yieldW = false
 		z.conns = append(z.conns, m)
 		c := NewConnWithCodec(NewClientCodec(&zzBytesCodec{}, nil, m, 64))
@@ -422,6 +424,9 @@ func zzH_TRaddr() {
 // that the next attempt gets a fresh connection.
 func zzH_TRvia() {
 	z := &zzWorld{up: map[string]bool{"a": true, "b": true}, dials: map[string]int{}}
+	if vChoose("close-reports-an-error", 2) == 1 {
+		z.closeErr = errZZWrite // e.g. TLS: the close_notify cannot be written to a connection that was reset
+	}
 	t := zzNewTransport(z, 1, 1)
 	vSetTimerBudget(vParam("tr.ticks", 1))
 	arg := []byte{0x31}
